@@ -92,6 +92,7 @@ func c13(c *Ctx) {
 		c.check(q.bypass() == nil, r, fnName(f)+":closed-tx-refused", c.pos(f.Pos()), "store commit is dominated by closed==false", "a cancelled or already committed transaction can be committed")
 		c.ruleOrder(r, f, "closed=true", storeTo("OngoingTx.closed"), "st.commit", callTo(storeT+"commit"), nil, 1)
 	}
+	c13IndexKeySlots(c, "C13.13/index-key-parts-are-filled-in-place")
 	c13OnlyCommittedReported(c, "C13.12/only-committed-transactions-are-reported")
 	c13PgDescribeDoesNotExecute(c, "C13.11/pgsql-describe-does-not-execute")
 	c12QueryFailureAborts(c, "C13.1/query-path-failure-aborts")
@@ -662,5 +663,77 @@ func c13OnlyCommittedReported(c *Ctx, r string) {
 	})
 	if n < 2 {
 		c.undecided(r, "floor", fmt.Sprintf("%d places listing a transaction as committed found in execPreparedStmts", n))
+	}
+}
+
+// c13IndexKeySlots: the key of an index (or row) entry is assembled from a slice of parts: K leading identifiers at
+// constant positions 0..K-1, one part per indexed column written by a loop at position i+B, possibly the primary key in
+// the last position. The loop starts where the identifiers end (B == K): one further and a part is never filled while
+// the last one is overwritten, and the entry written (a deletion marker for the OLD index entry of an updated row) goes
+// to a key no reader looks at - the transaction keeps seeing the old entry next to the new one.
+func c13IndexKeySlots(c *Ctx, r string) {
+	n := 0
+	for _, f := range c.allFns {
+		if !fnInPkgs(f, []string{"embedded/sql"}) || len(f.Blocks) == 0 {
+			continue
+		}
+		k := 0
+		allInstrs(f, false, func(in ssa.Instruction) {
+			ms, ok := in.(*ssa.MakeSlice)
+			if !ok || ms.Type().String() != "[][]byte" {
+				return
+			}
+			consts := map[int64]bool{}
+			var loopBase []int64
+			for _, rf := range *ms.Referrers() {
+				ia, ok := rf.(*ssa.IndexAddr)
+				if !ok {
+					continue
+				}
+				stored := false
+				for _, r2 := range *ia.Referrers() {
+					if st, ok := r2.(*ssa.Store); ok && st.Addr == ia {
+						stored = true
+					}
+				}
+				if !stored {
+					continue
+				}
+				switch ix := ia.Index.(type) {
+				case *ssa.Const:
+					if v, ok := constant.Int64Val(ix.Value); ok {
+						consts[v] = true
+					}
+				case *ssa.BinOp:
+					if ix.Op == token.ADD {
+						if kc, ok := ix.Y.(*ssa.Const); ok {
+							if _, isPhi := ix.X.(*ssa.Phi); isPhi || true {
+								if v, ok := constant.Int64Val(kc.Value); ok {
+									if _, xc := ix.X.(*ssa.Const); !xc {
+										loopBase = append(loopBase, v)
+									}
+								}
+							}
+						}
+					}
+				}
+			}
+			if len(loopBase) == 0 || len(consts) == 0 {
+				return
+			}
+			lead := int64(0)
+			for consts[lead] {
+				lead++
+			}
+			for _, b := range loopBase {
+				k++
+				n++
+				c.check(b == lead, r, fmt.Sprintf("%s:key-parts#%d", fnName(f), k), c.pos(in.Pos()), fmt.Sprintf("%d leading parts, the per-column parts start at %d", lead, b),
+					fmt.Sprintf("the key has %d leading parts (positions 0..%d) but the per-column parts are written from position %d on: position %d is never filled and the last part is overwritten, the entry goes to a key that is not the index entry's", lead, lead-1, b, lead))
+			}
+		})
+	}
+	if n < 3 {
+		c.undecided(r, "floor", fmt.Sprintf("%d keys assembled from parts found (doUpsert, deprecateIndexEntries, deleteIndexEntries confirmed by hand)", n))
 	}
 }
